@@ -58,12 +58,24 @@ package silence
 //@     (sil.MatcherSets[i] != nil && (forall j int :: 0 <= j && j < len(sil.MatcherSets[i].Matchers) ==> sil.MatcherSets[i].Matchers[j] != nil))
 
 // compile a silence's matchers into the index: on success exactly the entry for s.Id is (re)written, on error nothing changes.
+//@ spec mapMT(t pb.Matcher_Type) labels.MatchType = t == silencepb.Matcher_EQUAL ? labels.MatchEqual : (t == silencepb.Matcher_NOT_EQUAL ? labels.MatchNotEqual : (t == silencepb.Matcher_REGEXP ? labels.MatchRegexp : labels.MatchNotRegexp))
+//@ spec compiledAs(m *labels.Matcher, p *pb.Matcher) bool = m != nil && m.Type == mapMT(p.Type) && m.Name == p.Name && m.Value == p.Pattern
 //@ func (matcherIndex).add
 //@   props C02 C09 C12
 //@   requires s != nil && c != nil
+//@   assumes wfMatchers(s)
 //@   ensures [ok] result1 == nil ==> dom(c) == setadd(old(dom(c)), s.Id) && vals(c) == upd(old(vals(c)), s.Id, result0)
 //@   ensures [err] result1 != nil ==> dom(c) == old(dom(c)) && vals(c) == old(vals(c))
-//@   loop 1 invariant fresh(matcherSet)
+//@   ensures [fresh-result] result1 == nil ==> fresh(result0)
+//@   ensures [one-list-per-matcher-set] result1 == nil ==> len(result0) == len(s.MatcherSets) && (forall i int :: 0 <= i && i < len(result0) ==> result0[i] != nil && len(deref(result0[i])) == len(s.MatcherSets[i].Matchers))
+//@   ensures [compiled-faithfully] result1 == nil ==> (forall i int, j int :: 0 <= i && i < len(result0) && 0 <= j && j < len(s.MatcherSets[i].Matchers) ==> compiledAs(deref(result0[i])[j], s.MatcherSets[i].Matchers[j]))
+//@   loop 1 invariant fresh(matcherSet) && rangeindex < len(s.MatcherSets) && len(matcherSet) == rangeindex + 1
+//@   loop 1 invariant forall i int :: 0 <= i && i < len(matcherSet) ==> matcherSet[i] != nil && fresh(matcherSet[i]) && allocated(matcherSet[i]) && fresh(deref(matcherSet[i])) && allocated(deref(matcherSet[i])) && len(deref(matcherSet[i])) == len(s.MatcherSets[i].Matchers)
+//@   loop 1 invariant forall i int, j int :: 0 <= i && i < len(matcherSet) && 0 <= j && j < len(s.MatcherSets[i].Matchers) ==> compiledAs(deref(matcherSet[i])[j], s.MatcherSets[i].Matchers[j])
+//@   loop 2 invariant fresh(matcherSet) && rangeindex1 + 1 < len(s.MatcherSets) && len(matcherSet) == rangeindex1 + 1 && fresh(matchers) && len(matchers) == len(s.MatcherSets[rangeindex1 + 1].Matchers) && rangeindex < len(matchers)
+//@   loop 2 invariant forall i int :: 0 <= i && i < len(matcherSet) ==> matcherSet[i] != nil && fresh(matcherSet[i]) && allocated(matcherSet[i]) && fresh(deref(matcherSet[i])) && allocated(deref(matcherSet[i])) && len(deref(matcherSet[i])) == len(s.MatcherSets[i].Matchers) && base(deref(matcherSet[i])) != base(matchers)
+//@   loop 2 invariant forall i int, j int :: 0 <= i && i < len(matcherSet) && 0 <= j && j < len(s.MatcherSets[i].Matchers) ==> compiledAs(deref(matcherSet[i])[j], s.MatcherSets[i].Matchers[j])
+//@   loop 2 invariant forall j int :: 0 <= j && j <= rangeindex ==> compiledAs(matchers[j], s.MatcherSets[rangeindex1 + 1].Matchers[j])
 //@   assigns c[*]
 //@   nosafe
 
@@ -101,6 +113,7 @@ package silence
 //@   ensures [appended] len(s.vi) == old(len(s.vi)) + 1 && s.vi[len(s.vi) - 1].id == sil.Id && s.vi[len(s.vi) - 1].version == s.version
 //@   ensures [prefix] forall i int :: 0 <= i && i < old(len(s.vi)) ==> s.vi[i] == old(s.vi[i])
 //@   ensures [mi-others] forall id string :: id != sil.Id ==> (id in s.mi) == old(id in s.mi) && s.mi[id] == old(s.mi[id])
+//@   ensures [own-matchers-new-or-untouched] (sil.Id in s.mi) ==> (old(sil.Id in s.mi) && s.mi[sil.Id] == old(s.mi[sil.Id])) || fresh(s.mi[sil.Id])
 //@   ensures [fields] s.st == old(s.st) && s.mi == old(s.mi)
 //@   ensures [order-kept] old(viSorted(s)) ==> viSorted(s)
 //@   assigns s.version, s.vi, s.vi[*], s.mi[*]
@@ -118,11 +131,15 @@ package silence
 //@   ensures [fields] s.st == old(s.st) && s.mi == old(s.mi)
 //@   ensures [mi-others] forall id string :: id != sil.Id ==> (id in s.mi) == old(id in s.mi) && s.mi[id] == old(s.mi[id])
 //@   at call indexSilence assert [one-entry-removed] forall i int :: 0 <= i && i < len(s.vi) ==> s.vi[i] == (i < rangeindex1 + 1 ? old(s.vi[i]) : old(s.vi[i + 1]))
+//@   at call indexSilence assert [removed-entry-is-this-silence's] (rangeindex1 + 1 < old(len(s.vi)) ==> old(s.vi[rangeindex1 + 1].id) == sil.Id) && (forall i int :: 0 <= i && i < rangeindex1 + 1 && i < old(len(s.vi)) ==> old(s.vi[i].id) != sil.Id)
+//@   at call indexSilence assert [stale-matchers-dropped] !(sil.Id in s.mi)
+//@   ensures [no-stale-matchers] (sil.Id in s.mi) ==> fresh(s.mi[sil.Id])
 //@   at call indexSilence assert [removal-keeps-bound] old(viSorted(s)) ==> (forall i int :: 0 <= i && i < len(s.vi) ==> s.vi[i].version <= s.version)
 //@   at call indexSilence assert [removal-keeps-order] old(viSorted(s)) ==> (forall i int, j int :: 0 <= i && i < j && j < len(s.vi) ==> s.vi[i].version < s.vi[j].version)
 //@   loop 1 invariant rangeindex < len(s.vi) && s.vi == old(s.vi) && s.version == old(s.version) && s.mi == old(s.mi) && s.st == old(s.st)
 //@   loop 1 invariant forall i int :: 0 <= i && i < len(s.vi) ==> s.vi[i] == old(s.vi[i])
 //@   loop 1 invariant forall id string :: (id in s.mi) == old(id in s.mi) && s.mi[id] == old(s.mi[id])
+//@   loop 1 invariant forall i int :: 0 <= i && i <= rangeindex ==> s.vi[i].id != sil.Id
 //@   assigns s.version, s.vi, s.vi[*], s.mi[*]
 
 // C09: merging a received batch. Never replaces a newer version by an older one, never accepts a version past its
@@ -238,6 +255,14 @@ package silence
 //@   ensures [replaced-is-expired] let id0 = old(sil.Id) in let n2 = ret("nowUTC") in
 //@             result == nil && !(called("canUpdate") && ret("canUpdate")) && old(id0 in s.st) && old(stateAt(s.st[id0].Silence, n2)) != SilenceStateExpired && old(updAt(s, id0)) < n2
 //@             ==> tsT(s.st[id0].Silence.EndsAt) <= clock() && s.st[id0].Silence.Id == id0 && s.st[id0].Silence.MatcherSets == old(s.st[id0].Silence.MatcherSets)
+//@   ensures [every-refusal-has-a-cause] result != nil ==> (called("validateSilence") && ret("validateSilence") != nil) || (old(sil.Id) != "" && !old(sil.Id in s.st))
+//@             || (called("checkSizeLimits") && ret("checkSizeLimits") != nil) || (called("MaxSilences") && ret("MaxSilences") > 0 && old(len(s.st)) + 1 > ret("MaxSilences"))
+//@             || (called("uuid.NewRandom") && ret1("uuid.NewRandom") != nil) || (called("setSilence") && ret2("setSilence") != nil) || (called(").expire") && ret(").expire") != nil)
+//@   ensures [invalid-silence-rejected] called("validateSilence") && ret("validateSilence") != nil ==> result != nil
+//@   ensures [size-limit-rejects] called("checkSizeLimits") && ret("checkSizeLimits") != nil ==> result != nil
+//@   ensures [accepted-edit-is-offered-to-the-store] result == nil ==> called("setSilence") && ret2("setSilence") == nil
+//@   ensures [missing-start-is-now] old(sil.StartsAt) == nil || old(tsT(sil.StartsAt)) == 0 ==> (result == nil ==> tsT(sil.StartsAt) >= first("nowUTC"))
+//@   at call validateSilence assert [start-defaulted-before-validation] sil.StartsAt != nil && tsT(sil.StartsAt) != 0
 //@   ensures [max-silences] result == nil && called("MaxSilences") && ret("MaxSilences") > 0 && !(called("canUpdate") && ret("canUpdate")) ==> len(s.st) <= ret("MaxSilences")
 //@   ensures [inv] storeInv(s)
 //@   assigns s.st[*], s.mi[*], s.vi, s.vi[*], s.version, sil.*
